@@ -273,7 +273,7 @@ pub fn c15(tier: Tier) -> ! {
             coords.push(-0.5 - (k as f64) * 2f64.powi(-54));
         }
     }
-    let phis = [0., 0.3, PI / 2., PI, 2. * PI - 2f64.powi(-50), 2. * PI, 2. * PI + 0.3];
+    let phis = [0., 0.3, PI / 2., PI, 2. * PI - 2f64.powi(-50), 2. * PI, 2. * PI + 0.3, 4e-7, PI / 2. + 3e-7, 2. * PI - 5e-7];
     let shape = ShapeSpec::Polygon(3).json();
     let mut jobs = vec![];
     for g in GROUP_NAMES.iter() {
@@ -393,7 +393,11 @@ pub fn c15(tier: Tier) -> ! {
             op(1., 0., 1., -1., 0., 0.),
         ];
         let pgx = vec![op(1., 0., 0., 1., 0., 0.), op(1., 0., 0., -1., 0.5, 0.25)];
-        for (gname, family, ops) in [("p4", "Tetragonal", &p4), ("p3m1", "Hexagonal", &p3m1), ("glide along x with an offset", "Orthorhombic", &pgx)].iter() {
+        // the same groups listed with another operation first
+        let p2_rev = vec![op(-1., 0., 0., -1., 0., 0.), op(1., 0., 0., 1., 0., 0.)];
+        let centred = vec![op(1., 0., 0., 1., 0.5, 0.5), op(1., 0., 0., 1., 0., 0.)];
+        let p4_rot: Vec<Aff> = p4.iter().cycle().skip(2).take(4).cloned().collect();
+        for (gname, family, ops) in [("p4", "Tetragonal", &p4), ("p3m1", "Hexagonal", &p3m1), ("glide along x with an offset", "Orthorhombic", &pgx), ("p2 listed two-fold first", "Monoclinic", &p2_rev), ("centred cell listed centring first", "Orthorhombic", &centred), ("p4 listed from the half turn", "Tetragonal", &p4_rot)].iter() {
             let syms: Vec<Value> = ops.iter().map(|o| json!([o.m[0][0], o.m[1][0], 0., o.m[0][1], o.m[1][1], 0., o.t[0], o.t[1], 0.])).collect();
             for &x in [0.11, -0.5, 0.5, 0.3, 0.].iter() {
                 for &y in [-0.23, 0.5, 0.17, 0.].iter() {
@@ -883,7 +887,9 @@ pub fn c12_shapes(tier: Tier) -> Vec<(String, ShapeSpec)> {
         v.push((format!("radial{:?}", radii), ShapeSpec::Radial(radii.clone())));
     }
     v.push(("circle".into(), ShapeSpec::Circle));
-    for &(r, a, d) in [(0.637556, 120., 1.), (0.7, 180., 1.5), (1., 180., 2.), (0.5, 60., 1.2)].iter() {
+    // (the last three are degenerate but accepted by the command line: coinciding outer discs, all
+    // three discs concentric, outer discs that contain the central one)
+    for &(r, a, d) in [(0.637556, 120., 1.), (0.7, 180., 1.5), (1., 180., 2.), (0.5, 60., 1.2), (0.7, 0., 1.), (1., 60., 0.), (2.5, 120., 1.)].iter() {
         v.push((format!("trimer({},{},{})", r, a, d), ShapeSpec::Trimer(r, a, d)));
     }
     v
@@ -1304,8 +1310,16 @@ pub fn c02(tier: Tier) -> ! {
                 let sites = swapped["occupied_sites"].as_array_mut().unwrap();
                 sites.swap(0, 1);
             }
-            for (label, doc) in [("general site first", with_second_site(&one, &ident, -0.37, -0.4, 1.3)), ("site of multiplicity one first", swapped), ("two general sites", with_second_site(&one, &general, -0.37, -0.4, 1.3))].iter() {
-                let copies = if *label == "two general sites" { 2. * n } else { n + 1. };
+            // (a site record also carries the order of its site symmetry: whatever it says, the
+            // copies counted are the copies placed, one per operation)
+            let mut flagged = one.clone();
+            flagged["occupied_sites"][0]["wyckoff"]["num_rotations"] = json!(2);
+            flagged["occupied_sites"][0]["wyckoff"]["mirror_primary"] = json!(true);
+            for (label, doc) in [("general site first", with_second_site(&one, &ident, -0.37, -0.4, 1.3)), ("site of multiplicity one first", swapped), ("two general sites", with_second_site(&one, &general, -0.37, -0.4, 1.3)), ("one site whose record claims a two-fold axis and a mirror", flagged)].iter() {
+                let copies = if *label == "two general sites" { 2. * n } else if label.starts_with("one site") { n } else { n + 1. };
+                if label.starts_with("one site") && AnyState::from_json(doc).map(|s| s.cartesian().len() as f64 != n).unwrap_or(true) {
+                    continue;
+                }
                 let st = match AnyState::from_json(doc) {
                     Ok(s) => s,
                     Err(e) => machinery_error(&format!("two-site state does not deserialise: {}", e)),
